@@ -72,6 +72,10 @@ func (g *anteG) roundStart() uint64 { return uint64(g.height) - uint64(g.height)
 
 func (g *anteG) step() {
 	r := g.r
+	if r.P(1, 25) {
+		// governance changes the settlement gas prices in mid-history: later transactions pay the new price
+		g.emit("setprices %s", rng.Pick(r, []string{"setl:0.0003,uusdc:1", "setl:0.00015,uusdc:2", "setl:0.0001,uusdc:1", "setl:0.00025,uusdc:0.5"}))
+	}
 	switch r.Weighted([]int{8, 8, 5, 7, 3, 3, 5}) {
 	case 0:
 		g.settlementTx()
@@ -287,7 +291,7 @@ func (g *anteG) sendMsg() string {
 	r := g.r
 	to := rng.Pick(r, accs)
 	if r.P(1, 6) {
-		to = rng.Pick(r, []string{"mdistr", "mpool", "mcollector"}) // module accounts may not receive funds
+		to = rng.Pick(r, []string{"mdistr", "mdistr", "mpool", "mcollector"}) // module accounts may not receive funds
 	}
 	return fmt.Sprintf("send(%s~%s~%d~=uusdc)", rng.Pick(r, accs[:6]), to, 1+r.N(50))
 }
@@ -295,7 +299,16 @@ func (g *anteG) sendMsg() string {
 func (g *anteG) mixedTx() {
 	r := g.r
 	var ms []string
-	switch r.N(4) {
+	switch r.N(7) {
+	case 4: // a restricted message behind an unrestricted one: the filter must look at every message, not only the first
+		a := rng.Pick(r, accs)
+		ms = []string{fmt.Sprintf("send(%s~%s~%d~=uusdc)", a, rng.Pick(r, accs), 1+r.N(50)), fmt.Sprintf("createval(%s)", a)}
+	case 5: // bank + settlement (other order)
+		m, _ := g.settleMsg()
+		ms = []string{g.sendMsg(), m}
+	case 6: // three messages, the restricted one in the middle
+		a := rng.Pick(r, accs)
+		ms = []string{g.sendMsg(), fmt.Sprintf("createval(%s)", a), g.sendMsg()}
 	case 0: // oracle + bank
 		v := r.N(world.NVal)
 		ms = []string{g.oracleMsg(v, g.who(v)), g.sendMsg()}
@@ -311,7 +324,7 @@ func (g *anteG) mixedTx() {
 		ms = []string{g.sendMsg(), g.oracleMsg(v, g.who(v))}
 	}
 	fee := rng.Pick(r, []string{genericFee, "2000000000000:uusdc", genericFee + ",2000000000000:uusdc"})
-	g.tx("auto", "-", fee, 400000, strings.Join(ms, "|"))
+	g.tx("auto", "-", fee, 600000, strings.Join(ms, "|"))
 }
 
 func (g *anteG) innerMsg(grantee string) string {
